@@ -14,8 +14,10 @@ def TS.WF (s : TS) : Prop :=
 theorem C18_wf_all_histories (ops : List TSOp) : (TS.run {} ops).1.WF := by
   exact TS.run_wf' ops {} TS.init_wf'
 
-/-- an op that is not a clear of class `c` (targeted or global) -/
-def keeps (c : Nat) (op : TSOp) : Prop := op ≠ .clear (some c) ∧ op ≠ .clear none
+/-- an op that is not a clear of class `c` (targeted or global; a construction whose `__init__`
+    issues a global clear counts as a clear) -/
+def keeps (c : Nat) (op : TSOp) : Prop :=
+  op ≠ .clear (some c) ∧ op ≠ .clear none ∧ ∀ c2 a, op ≠ .constructClearing c2 a
 
 /-- all constructions of a class between two clears of it return the same object, whatever
     arguments are passed and whatever happens to other classes in between -/
@@ -134,6 +136,21 @@ theorem C18_failed_construction_registers_nothing (s : TS) (c a : Nat) (h : look
 theorem C18_failing_args_on_live_instance (s : TS) (c a i : Nat) (h : lookup c s.inst = some i) :
     s.step (.constructFail c a) = (s, some i) := by
   simp only [TS.step, h]
+
+/-- a global clear issued from INSIDE the `__init__` of a first construction ends the period of
+    every other class, but the object under construction is filed in the NEW table: the class
+    has exactly this instance afterwards, and its next construction returns it (no second
+    `__init__`) -/
+theorem C18_reentrant_clear_keeps_new_instance (s : TS) (c a a' : Nat) (h : lookup c s.inst = none) :
+    (s.step (.constructClearing c a)).2 = some s.next ∧
+    (s.step (.constructClearing c a)).1.inst = [(c, s.next)] ∧
+    ((s.step (.constructClearing c a)).1.step (.construct c a')) =
+      ((s.step (.constructClearing c a)).1, some s.next) := by
+  simp [TS.step, h, lookup]
+
+/-- non-vacuity -/
+example : (TS.run {} [.construct 1 0, .constructClearing 0 10, .construct 0 1, .construct 1 1]).2
+    = [some 0, some 1, some 1, some 2] := by decide
 
 /-- non-vacuity -/
 example : (TS.run {} [.constructFail 0 9, .construct 0 1, .constructFail 0 9]).2 = [none, some 0, some 0] := by decide
